@@ -173,20 +173,22 @@ theorem convertXBig_ne_err {x : Exts} (hf : x.fencedCode = false) (hfn : x.footn
   rw [C14X.topLevelStrip_div _ u (treeXBig_rootDiv hfn hab hal htoc ht)] at hs
   cases hs
 
-/-- the preprocessors without fenced_code, for a source the model covers -/
-theorem prepareX_ne_ood {x : Exts} {cfg : Cfg} {src : Str} (hf : x.fencedCode = false)
+/-- the preprocessors do not answer `ood` without attr_list, for a source the model covers -/
+theorem prepareX_ne_ood {x : Exts} {cfg : Cfg} {src : Str} (hal : x.attrList = false)
     (hadm : x.admonition = true → admNonAscii (Normalize.normalize cfg.tab src) = false) :
     prepareX x cfg src ≠ .ood := by
   unfold prepareX
-  simp only [hf, Bool.false_eq_true, if_false]
+  simp only [hal, Bool.false_and, Bool.false_eq_true, if_false]
   split
   · next hc =>
     simp only [Bool.and_eq_true] at hc
     rw [hadm hc.1] at hc
     cases hc.2
-  · intro h; cases h
+  · split
+    · split <;> (intro h; cases h)
+    · intro h; cases h
 
-theorem treeXBig_ne_ood {x : Exts} (hf : x.fencedCode = false) (hfn : x.footnotes = false) (hab : x.abbr = false)
+theorem treeXBig_ne_ood {x : Exts} (hfn : x.footnotes = false) (hab : x.abbr = false)
     (hal : x.attrList = false) (htoc : x.toc = false) {cfg : Cfg} {src : Str}
     (hadm : x.admonition = true → admNonAscii (Normalize.normalize cfg.tab src) = false) :
     treeXBig x cfg src ≠ .ood := by
@@ -198,7 +200,7 @@ theorem treeXBig_ne_ood {x : Exts} (hf : x.fencedCode = false) (hfn : x.footnote
     simp only [blockStageX] at hb
     split at hb
     · cases hb
-    · next hp => exact prepareX_ne_ood hf hadm hp
+    · next hp => exact prepareX_ne_ood hal hadm hp
     · split at hb
       · cases hb
       · simp only [fnStageX, hfn, Bool.false_eq_true, if_false] at hb
@@ -214,7 +216,7 @@ theorem treeXBig_ne_ood {x : Exts} (hf : x.fencedCode = false) (hfn : x.footnote
       rw [lateStageX_simple hfn hab hal htoc]
       cases TreeProc.unescapeTree (TreeProc.prettify t cfg.blockLevel) <;> (intro h; cases h)
 
-theorem convertXBig_ne_ood {x : Exts} (hf : x.fencedCode = false) (hfn : x.footnotes = false) (hab : x.abbr = false)
+theorem convertXBig_ne_ood {x : Exts} (hfn : x.footnotes = false) (hab : x.abbr = false)
     (hal : x.attrList = false) (htoc : x.toc = false) {cfg : Cfg} {src : Str} (hlt : '<' ∉ src)
     (hadm : x.admonition = true → admNonAscii (Normalize.normalize cfg.tab src) = false) :
     convertXBig x cfg src ≠ .ood := by
@@ -228,7 +230,7 @@ theorem convertXBig_ne_ood {x : Exts} (hf : x.fencedCode = false) (hfn : x.footn
       · cases ht : treeXBig x cfg src with
         | oof => intro h; cases h
         | err => intro h; cases h
-        | ood => exact absurd ht (treeXBig_ne_ood hf hfn hab hal htoc hadm)
+        | ood => exact absurd ht (treeXBig_ne_ood hfn hab hal htoc hadm)
         | ok u html =>
           simp only [finishX]
           split
@@ -248,7 +250,7 @@ theorem convertXBig_ok {x : Exts} (hf : x.fencedCode = false) (hfn : x.footnotes
     | true => exact convertXBig_ne_oof_wiki src (hw hwl) hf (fun h => (hadm h).1)
     | false => exact convertXBig_ne_oof_nowiki src hwl hf (fun h => (hadm h).1)
   have h2 := convertXBig_ne_err hf hfn hab hal htoc cfg src
-  have h3 := convertXBig_ne_ood hf hfn hab hal htoc hlt (fun h => (hadm h).2)
+  have h3 := convertXBig_ne_ood hfn hab hal htoc hlt (fun h => (hadm h).2)
   cases hc : convertXBig x cfg src with
   | ok out => exact ⟨out, rfl⟩
   | oof => exact absurd hc h1
